@@ -817,6 +817,10 @@ class Exec:
             return extern.scalar_attr(self, o, attr)
         if isinstance(o, BI) and attr == '__name__':
             return o.n
+        if hasattr(o, '_pyvc_attrs'):
+            if attr in o._pyvc_attrs:
+                return o._pyvc_attrs[attr]
+            raise SymRaise('AttributeError', attr)
         if o is None:
             raise SymRaise('AttributeError', f'NoneType.{attr}')
         raise Unsupported(f'attribute {attr} of {o!r}')
